@@ -274,8 +274,9 @@ JUDGES = {"c01": judge_c01, "c02": judge_c02, "c03": judge_c03, "c16": judge_c16
 # shard job
 
 
-def explore(kind, n, cfg, hidden, states, d, persistent, judge, snap=False, extra=None, only_pre_first=False):
+def explore(kind, n, cfg, hidden, states, d, persistent, judge, snap=False, extra=None, only_pre_first=False, flavour="plain"):
     t = core.Tally()
+    forest.FAULT_FLAVOUR[0] = flavour
     ops = forest.ops_for(n, cfg)
     if isinstance(judge, str) and judge not in JUDGES:
         if judge in ("c17", "c18"):
@@ -335,7 +336,7 @@ def run_configs(configs, log=print):
                     ("mc.e1run", "explore", dict(kind=c["kind"], n=c["n"], cfg=c["cfg"], hidden=c["hidden"], states=s,
                                                  d=c["d"], persistent=tuple(c.get("persistent", ())), judge=c["judge"],
                                                  snap=c.get("snap", False), extra=c.get("extra"),
-                                                 only_pre_first=c.get("only_pre_first", False)))
+                                                 only_pre_first=c.get("only_pre_first", False), flavour=c.get("flavour", "plain")))
                     for s in shards
                 ]
                 t = core.Tally()
@@ -343,9 +344,9 @@ def run_configs(configs, log=print):
                     merge_max(t, res)
                 if t.c["states"] != len(states):
                     t.errors.append("shards covered %d of %d states" % (t.c["states"], len(states)))
-                name = c.get("name") or "%s N=%d d<=%d%s%s A=%d" % (
+                name = c.get("name") or "%s N=%d d<=%d%s%s%s A=%d" % (
                     c["kind"], c["n"], c["d"], "+persist" if c.get("persistent") else "",
-                    " hidden-bits" if c["hidden"] else "", assertions)
+                    " hidden-bits" if c["hidden"] else "", " faults:" + c["flavour"] if c.get("flavour") else "", assertions)
                 summ = {"config": name, "states": len(states), "transitions": t.c["transitions"],
                         "executions": t.c["executions"], "violations": t.c["violations"], "wall_s": round(tm.s(), 2)}
                 summaries.append(summ)
